@@ -933,13 +933,20 @@ func run(r *evid.Run) {
 	var jobs []plantJob
 	bases := plantBases(r.Quick())
 	opSet := map[string]bool{}
+	classCount := map[string]int{}
 	for bi, b := range bases {
 		for _, pl := range Plants(b) {
 			if r.Quick() && bi > 0 && strings.HasPrefix(pl.Op, "comment-") && !strings.HasSuffix(pl.Op, "/none") && !strings.HasSuffix(pl.Op, "/detached") {
 				continue // quick: the other comment shapes are planted on the first base only
 			}
+			if r.Quick() && pl.ThoroughOnly {
+				continue // quick: the smaller bound of the operator's enumerated dimension
+			}
 			jobs = append(jobs, plantJob{b, pl})
 			opSet[pl.Op] = true
+			if pl.Class != "" {
+				classCount[pl.Class]++
+			}
 		}
 		if bi < 3 {
 			seenSite := map[string]bool{}
@@ -1002,7 +1009,7 @@ func run(r *evid.Run) {
 		case j.pl.Heavy:
 		case menu[i] == menuFull:
 			shapes[i] = 2
-		case j.pl.Opts != nil:
+		case j.pl.Opts != nil && !j.pl.Bulk:
 			shapes[i] = 1
 		}
 	}
@@ -1029,6 +1036,14 @@ func run(r *evid.Run) {
 	r.Set("collateral_expectations_met", st.collateral)
 	r.Set("workspaces_not_building", st.buildFailures)
 	r.Set("evaluations_per_config_shape", st.shapeEvals)
+	// google.protobuf.Empty shared by several RPCs under exactly one allowance: 0, 1 and >= 2 usages that
+	// the allowance does not cover must all have been planted (1 is the boundary of "more than one RPC")
+	r.Set("plant_instances_per_class", classCount)
+	for _, class := range []string{"empty-shared/one-allowance/uncovered-usages=0", "empty-shared/one-allowance/uncovered-usages=1", "empty-shared/one-allowance/uncovered-usages=2+"} {
+		if classCount[class] == 0 {
+			r.Incomplete("no planted workspace of class " + class)
+		}
+	}
 	// every rule option must have been the only key of a lint block, in every layout it can be
 	for _, key := range []string{"enum_zero_value_suffix", "service_suffix", "rpc_allow_same_request_response", "rpc_allow_google_protobuf_empty_requests", "rpc_allow_google_protobuf_empty_responses"} {
 		shapesOfKey := []string{"v2/module/no-use", "v2/module/use", "v2/top/no-use", "v1/top/no-use", "v1beta1/top/no-use"}
